@@ -279,3 +279,21 @@ pub proof fn lemma_has_bs_witness(s: Seq<u8>, i0: int, j: int, e: int)
     ensures has_bs(s, i0, e),
 { }
 
+
+// a well-formed literal contains no raw control byte and ends with a quote byte
+pub proof fn lemma_str_no_ctrl(s: Seq<u8>, i: int)
+    requires 0 <= i <= s.len(), str_end(s, i).is_some(),
+    ensures forall|j: int| i <= j < str_end(s, i).unwrap() ==> #[trigger] s[j] >= 0x20,
+        s[str_end(s, i).unwrap() - 1] == 0x22,
+    decreases s.len() - i
+{
+    if s[i] == 0x22 { }
+    else if s[i] == 0x5c {
+        let e = esc_end(s, i).unwrap();
+        lemma_str_no_ctrl(s, e);
+        lemma_str_end_bounds(s, e);
+    } else {
+        lemma_str_no_ctrl(s, i + 1);
+        lemma_str_end_bounds(s, i + 1);
+    }
+}
